@@ -47,13 +47,13 @@ def random_cases(rng, n, max_numel=6000):
     out = []
     while len(out) < n:
         o = rng.choice([0, 1, 1, 2, 2, 2, 3, 3, 4, 5, 6])
-        shape = [rng.choice([1, 1, 2, 3, 4, 5, 7, 8, 13, 16, 31, 48] if o <= 4 else [1, 1, 2, 2, 3, 4, 5]) for _ in range(o)]
+        shape = [rng.choice([1, 1, 2, 3, 4, 5, 7, 8, 9, 13, 16, 17, 18, 31, 33, 48, 65] if o <= 4 else [1, 1, 2, 2, 3, 4, 5, 9]) for _ in range(o)]
         numel = 1
         for d in shape:
             numel *= d
         if numel > max_numel:
             continue
-        thr = rng.choice([1, 2, 3, 4, 5, 7, 8, 15, 16, 17, 32, 64, 1024])
+        thr = rng.choice([1, 2, 3, 4, 5, 7, 8, 8, 15, 16, 16, 17, 32, 64, 1024])     # 8, 16, 32, 64: a dimension of k * thr + 1 leaves a sliver block
         # bound the number of blocks
         nblk = 1
         for d in shape:
